@@ -2,7 +2,7 @@
 """Write seeded/RESULTS.md from seeded_results/<round>/<id>.txt (output of tools/seeded_par.py) and the meta.json files."""
 import json, os, re
 V = "/verif"
-rounds = [("seeded", "Round 1"), ("seeded2", "Round 2"), ("seeded3", "Round 3")]
+rounds = [("seeded", "Round 1"), ("seeded2", "Round 2"), ("seeded3", "Round 3"), ("seeded4", "Round 4")]
 out = ["# Seeded changes: which check catches what", "",
        "Every change was written by a sub-agent that saw only the property text and its own scratch worktree, was confirmed there",
        "(the repository's 104 tests pass with it; its demo fails with it and passes without it) and is kept as",
@@ -34,6 +34,8 @@ for d, title in rounds:
         res = {0: "MISSED (exit 0)", 1: "VIOLATION", 2: "UNDECIDED (exit 2)", 3: "CHECKER ERROR"}.get(rc, "rc=%d" % rc)
         if rc == 0 and m.get("status_on_current_tree"):
             res = "exit 0 - correct: the change no longer breaks the property on the repaired tree (its demo passes; see meta.json)"
+        if rc == 2 and m.get("status_on_current_tree"):
+            res = "exit 2 (undecided) - the change no longer breaks the property on the repaired tree (its demo passes; see meta.json)"
         tot.setdefault(d, []).append((res, kind))
         show = [n.replace("__", "#", 1).replace("_", ":", 1) if False else n for n in (contract + structural)[:3]] + \
                [n.replace("bounded_bounded_scenario_", "scenario ").replace("bounded_bounded_structures_", "structures ") for n in bounded[:2]]
@@ -50,7 +52,7 @@ for d, title in rounds:
             title, len(r), sum(1 for a, _ in r if a == "VIOLATION"), sum(1 for a, k in r if a == "VIOLATION" and k == "contract"),
             sum(1 for a, k in r if a == "VIOLATION" and k == "structural"), sum(1 for a, k in r if a == "VIOLATION" and k == "bounded"),
             sum(1 for a, _ in r if a.startswith("UNDECIDED")), sum(1 for a, _ in r if a.startswith("MISSED"))) +
-                   ("; %d no longer a violation on the repaired tree (exit 0, correct)" % sum(1 for a, _ in r if a.startswith("exit 0"))
-                    if any(a.startswith("exit 0") for a, _ in r) else ""))
+                   ("; %d no longer a violation on the repaired tree (exit 0 or 2, no VIOLATION line)" % sum(1 for a, _ in r if a.startswith("exit "))
+                    if any(a.startswith("exit ") for a, _ in r) else ""))
 open(os.path.join(V, "seeded", "RESULTS.md"), "w").write("\n".join(out) + "\n")
 print("\n".join(out[-5:]))
